@@ -1,6 +1,6 @@
 #!/bin/bash
 # Runs every hand-written mutant under harness/props/cNN/mutants/*.diff against the check of that property (quick tier)
-# in a scratch worktree: files named benign-* / tolerated-* must stay silent (rc=0 or 3), all others must be caught (rc=1).
+# in a scratch worktree: files named benign-* / tolerated-* (conforming variants) and undetected-* (real breaks the check cannot decide: documented gaps) must stay silent (rc=0 or 3), all others must be caught (rc=1).
 #   scripts/run_mutants.sh [jobs]        result table: out/logs/mutants.txt
 cd "$(dirname "$(readlink -f "$0")")/.."
 jobs=${1:-4}
@@ -10,7 +10,7 @@ one() {
   res=$(scripts/mutant_run.sh $f quick $prop 2>&1)
   rc=$(echo "$res" | grep "^RESULT $prop " | sed 's/.*rc=//')
   echo "$res" | grep -q PATCH-DOES-NOT-APPLY && rc=noapply
-  want=1; case $name in benign*|tolerated*) want=0;; esac
+  want=1; case $name in benign*|tolerated*|undetected*) want=0;; esac
   verdict=OK
   if [ "$want" = 1 ] && [ "$rc" != 1 ]; then verdict=UNEXPECTED; fi
   if [ "$want" = 0 ] && [ "$rc" != 0 ] && [ "$rc" != 3 ]; then verdict=UNEXPECTED; fi
